@@ -392,6 +392,12 @@ impl BufFile {
     { unimplemented!() }
 }
 
+/// T5: size_of_val(&u64) == 8
+#[verifier::external_body]
+pub broadcast proof fn axiom_sizeof_u64(x: &u64)
+    ensures #[trigger] vstd::layout::spec_size_of_val::<u64>(x) == 8
+{}
+
 pub open spec fn is_pow2(n: nat) -> bool
     decreases n
 {
